@@ -63,8 +63,11 @@ if spec.get('no_stl'): kw['use_stl'] = False
 if spec.get('debug'): kw['debugging_file_path'] = Path(spec['debug'])
 flipjump.assemble([Path(p) for p in spec['files']], Path(spec['out']), warning_as_errors=bool(spec.get('werror')), print_time=False, **kw)
 if spec.get('run'):
-    from flipjump.interpreter.io_devices.StandardIO import StandardIO
-    stats = flipjump.run(Path(spec['out']), io_device=StandardIO(True), print_time=False, print_termination=False)
+    if spec.get('prelude'):
+        # an earlier API run in the same process (default device, leaves a partial output byte behind): a later API call must not
+        # be affected by it. its own 3 output bits never complete a byte, so nothing reaches stdout.
+        flipjump.run(Path(spec['prelude']), print_time=False, print_termination=False)
+    stats = flipjump.run(Path(spec['out']), print_time=False, print_termination=False)   # io_device defaults to StandardIO
     sys.stdout.flush()
     sys.stderr.write('FJVERIF-TERMINATION ' + json.dumps({'cause': str(stats.termination_cause), 'ops': stats.op_counter}) + '\n')
 '''
@@ -137,6 +140,25 @@ class Judge:
     def bad(self, key: str, what: str, case: Dict[str, Any]) -> None:
         if sum(1 for v in self.violations if v['key'] == key) < 3:
             self.violations.append({'key': key, 'what': what, 'replay': case})
+
+    def prelude_fjm(self) -> Path:
+        """a tiny program that outputs exactly 3 bits and halts (built once per shard with the repository's own writer)."""
+        path = self.workdir / 'prelude.fjm'
+        if not path.exists():
+            from flipjump.fjm.fjm_consts import FJMVersion
+            from flipjump.fjm.fjm_writer import Writer
+
+            w = 64
+            dw = 2 * w
+            ops = [(dw + 1, 4 * w), (0, 0), (dw, 6 * w), (dw + 1, 8 * w), (0, 8 * w)]  # op0, (IO slot), out 0, out 1, halt
+            ops[0] = (dw + 1, 4 * w)
+            words: List[int] = []
+            for f, j in ops:
+                words += [f, j]
+            writer = Writer(path, w, FJMVersion(1))
+            writer.add_simple_segment_with_data(0, words)
+            writer.write_to_file()
+        return path
 
     def cli(self, args: List[str], cwd: Path, stdin: Optional[bytes] = None, capture: Optional[Path] = None) -> Tuple[int, bytes, bytes]:
         env = dict(self.env)
@@ -212,6 +234,8 @@ class Judge:
         spec = {'files': files, 'out': str(out_c), 'width': width if opts['explicit_width'] else None,
                 'version': opts['version'], 'no_stl': opts['no_stl'], 'werror': opts['werror'],
                 'debug': str(dbg_c) if opts['debug'] else None, 'run': runnable}
+        if runnable:
+            spec['prelude'] = str(self.prelude_fjm())
         rc_c, so_c, se_c = self.api(spec, d, stdin)
         self.count('monitor_evaluations')
 
